@@ -64,12 +64,24 @@ def block_rotation_moves_everything(ctx, k, cornersUp):
     edge = [ctx.real("e%d" % m, -1e3, 1e3) for m in range(6)]
     b.p.cornerFastFlux = list(corner)
     b.p.pointsEdgeDpa = np.array(edge, dtype=object) if ctx.mode == "sym" else np.array(edge)
-    b.p.THcornTemp = ctx.real("scalarCorner", 0.0, 1e3)     # a scalar on a corner location is left alone
+    # every other parameter the block defines on its corners / edges (read from the parameter definitions at run time,
+    # including those whose location combines flags, e.g. TOP|CORNERS) carries the same six entries, except one that
+    # holds a scalar (a scalar on a corner location is left alone)
+    from armi.reactor.parameters import ParamLocation
+    cornerNames = [n for n in b.p.paramDefs.atLocation(ParamLocation.CORNERS).names if n != "cornerFastFlux"]
+    edgeNames = [n for n in b.p.paramDefs.atLocation(ParamLocation.EDGES).names if n != "pointsEdgeDpa"]
+    scalarName = "THedgeTemp"
+    edgeNames = [n for n in edgeNames if n != scalarName]
+    for nm in cornerNames:
+        b.p[nm] = list(corner)
+    for nm in edgeNames:
+        b.p[nm] = list(edge)
+    b.p[scalarName] = ctx.real("scalarCorner", 0.0, 1e3)
     dx, dy = ctx.real("dx", -10.0, 10.0), ctx.real("dy", -10.0, 10.0)
     b.p.displacementX, b.p.displacementY = dx, dy
     b.p.orientation = np.array([0.0, 0.0, 60.0])
     rot0 = b.getRotationNum()
-    scalar0 = b.p.THcornTemp
+    scalar0 = b.p[scalarName]
 
     b.rotate(k * math.pi / 3.0)
 
@@ -100,7 +112,12 @@ def block_rotation_moves_everything(ctx, k, cornersUp):
     for m in range(6):
         ctx.check_close("corner entry %d moved to %d" % (m, (m + k) % 6), newc[(m + k) % 6], corner[m], scale=1e3)
         ctx.check_close("edge entry %d moved to %d" % (m, (m + k) % 6), newe[(m + k) % 6], edge[m], scale=1e3)
-    ctx.check_close("scalar boundary parameter left alone", b.p.THcornTemp, scalar0, scale=1e3)
+        for nm in cornerNames:
+            if True:
+                ctx.check_close("%s entry %d moved to %d" % (nm, m, (m + k) % 6), b.p[nm][(m + k) % 6], corner[m], scale=1e3)
+        for nm in edgeNames:
+            ctx.check_close("%s entry %d moved to %d" % (nm, m, (m + k) % 6), b.p[nm][(m + k) % 6], edge[m], scale=1e3)
+    ctx.check_close("scalar boundary parameter left alone", b.p[scalarName], scalar0, scale=1e3)
     # displacement vector rotated, orientation advanced
     wdx, wdy = rot(ctx, dx, dy, k)
     ctx.check_close("displacement x rotated", b.p.displacementX, wdx, scale=20.0)
